@@ -16,7 +16,9 @@ RULE = ("harness c17: one record = a HISTORY applied to one operand (fresh view 
         "and the scratch live in one allocation between guard zones, run twice from two garbage fills; outputs = "
         "[status, canaries intact, hook violations, digests equal] + the subject's header as the accessors report it; the model "
         "predicts header and status from the layout model; the oracle requires Inv of the observed header, intact canaries, no "
-        "hook violation, equal digests.  Hazard stream (isolated processes, oracle only): small-n zones, operands of another "
+        "hook violation, equal digests.  Scheme layers (opcodes 100..112): CKKS add / mul / rescale on 4 backends and FheUint prepare (circuit "
+        "bootstrapping) / add circuit / glwe_blind_rotation on the FFT64 backends with owned operands and the scratch window carved "
+        "in the arena at the smallest accepted length (bisection) and a shifted start.  Hazard stream (isolated processes, oracle only): small-n zones, operands of another "
         "ring degree, ill-formed subjects actually used.  distinct = distinct (backend, op, n, history, shapes)")
 ASSUMPTIONS = [
     "what is proved is the LOGIC of addressing (index arithmetic of the layouts, arena, reference loops, compaction order); "
@@ -34,9 +36,9 @@ TRUSTED = [
 
 # zone 17001 (FFT64Avx DFT-domain kernels at n < 8) is retired: repaired by fd67345, those shapes are in the main stream now
 ZONE_KEY = {17002: "fft64.vmp.n_lt_8.noop", 17003: "ntt120.vmp.n1.noop", 17004: "ring_degree_mismatch.unchecked"}
-# history 9 = from_data on a short buffer; VecZnx / ScalarZnx validate since 2067fe8 (a panic is then the expected outcome),
-# the prepared / big layouts still do not.  Histories 3..6 (read_from) are repaired by 206cd69: no known class any more.
-HIST_KEY = {9: "from_data.unchecked.prepared_layouts"}
+# history 9 = from_data on a short buffer: every layout validates since 2067fe8 / 122d562 (a panic is the expected outcome);
+# histories 3..6 (read_from) are repaired by 206cd69.  No history leaves an ill-formed object any more: no known class.
+HIST_KEY = {}
 
 
 def _parse(record):
@@ -133,7 +135,7 @@ def _hazard(ctx, ofails, notes):
             if out[0][2] != 0: d["hook"] += 1
             ofails.append({"profile": "release", "record": l})
     names = {17002: "FFT64 vmp n<8", 17003: "NTT120 vmp n=1", 17004: "other ring degree",
-             17005: "ill-formed subject used"}
+             }
     for z in sorted(st):
         notes.append(f"hazard zone {names.get(z, z)}: {st[z]}")
     return {"hazard_stream": {names.get(z, str(z)): st[z] for z in sorted(st)}}
